@@ -242,9 +242,18 @@ func Run[C any](t *testing.T, p *Prop[C]) {
 		runEnum(t, p)
 	default:
 		failed := false
+		var survey *os.File
+		if sp := os.Getenv("VERIF_SURVEY"); sp != "" {
+			survey, _ = os.Create(sp)
+			defer survey.Close()
+		}
 		rapid.Check(t, func(rt *rapid.T) {
 			c := p.Gen(rt)
 			msg, v := judge(p, c, !failed)
+			if msg != "" && survey != nil {
+				fmt.Fprintf(survey, "%s\t%s\n", v.Sig, strings.ReplaceAll(msg, "\n", " // "))
+				return
+			}
 			if msg != "" {
 				failed = true
 				st.Violations = 1
